@@ -13,7 +13,7 @@ import (
 
 func init() {
 	Register(&Scenario{
-		Prop: "C20", Run: scenarioC20, QuickRuns: 12000, ThoroughRuns: 300000, Level: "fault_enumeration",
+		Prop: "C20", Run: scenarioC20, QuickRuns: 12000, ThoroughRuns: 1500000, Level: "fault_enumeration",
 		Rule:       "one run = one seeded experiment shape (1..N trials, 1..M generations, which generation if any is reported solved per trial, with or without observer, sequential or parallel executor) executed by the real Experiment.Execute with a scripted evaluator and observer that write one sequence-numbered event log, under a fault script: none, an evaluator error, or a context cancellation at evaluator entry / by a timer at a simulated instant in mid-evaluation (fake clock) / evaluator exit / inside each of the three observer callbacks / at the 'epoch.prepared' point / at the k-th offspring / at the speciation of the babies. The log must be a prefix of the protocol's ideal sequence, complete when no fault fired; no evaluation may begin after the fault instant; the returned error must be the injected one / context.Canceled (nil only if the protocol had completed); generation g>=1 is evaluated on organisms born in turnover g-1, a solved trial's population is never turned over, every trial starts from a freshly spawned population, finished trials are recorded in order. A share of the runs sweeps every single-fault point of its shape (complete for that shape). A case is one Execute call; non-trivial when a fault fired or a trial was solved before its last generation; distinct by (shape, solved pattern, fault)",
 		RealParts:  []string{"experiment.Experiment.Execute, epochExecutorForContext, both epoch executors, NewPopulation, context propagation into Species.reproduce and Population.speciate", "time.Now / time.Since under the testing/synctest fake clock (sequential executor)"},
 		StubParts:  []string{"GenerationEvaluator and TrialRunObserver (scripted, logging)", "wall clock (fake clock for the sequential executor; real, unobserved clock for the parallel one)", "goroutine choice in parallel runs"},
